@@ -110,7 +110,7 @@ var specs = map[string]*propSpec{
 			{"CompilerInterface / ServerInterface of the library manager", "stub", "harness implementations: real parser+compiler, recording server"},
 			{"clock, timers", "stub", "testing/synctest fake clock"},
 		},
-		FaultKinds: []string{"torn-save", "duplicate-or-extra-event", "spurious-event", "reload-fails", "request-in-flight-across-reload", "slow-compile", "compile-stalls", "file-absent-when-debounce-fires", "clock-jump"},
+		FaultKinds: []string{"torn-save", "duplicate-or-extra-event", "spurious-event", "reload-fails", "request-in-flight-across-reload", "slow-compile", "compile-stalls", "file-absent-when-debounce-fires", "clock-jump", "typo-saved-and-undone-as-debounce-fires", "watcher-error"},
 	},
 	"C16": {
 		ID: "C16", Title: "WebSocket rooms stay consistent under concurrency",
@@ -133,7 +133,7 @@ var specs = map[string]*propSpec{
 			{"crypto/rand (connection ids)", "stub", "seeded stream"},
 			{"clock, tickers, deadlines", "stub", "testing/synctest fake clock"},
 		},
-		FaultKinds: []string{"client-close", "client-vanish", "server-close", "net-short-read", "clock-jump"},
+		FaultKinds: []string{"client-close", "client-vanish", "server-close", "net-short-read", "clock-jump", "unexpected-frame"},
 		Parts: []*propSpec{{
 			ID: "C16g", Title: "WebSocket rooms stay consistent under concurrency (language level)",
 			TestPkg: "cmd/glyph", HarnessDir: "C16g", HarnessExtra: []string{"glyphcommon"},
@@ -173,7 +173,7 @@ var specs = map[string]*propSpec{
 			{"PostgreSQL / MySQL servers", "not-run", "no network; dialect-specific BulkInsert runs only where SQLite accepts the syntax"},
 			{"clock, context deadlines", "stub", "testing/synctest fake clock"},
 		},
-		FaultKinds: []string{"cb-error", "cb-error-lockwait", "cb-error-deadlock", "cb-error-canceled", "cb-error-deadline", "cb-error-wrapped", "cb-error-txdone", "cb-error-badconn", "cb-panic", "ctx-cancel", "deadline", "nested-deadline", "exec", "badconn", "begin", "commit-before", "commit-after", "rollback"},
+		FaultKinds: []string{"cb-error", "cb-error-lockwait", "cb-error-deadlock", "cb-error-canceled", "cb-error-deadline", "cb-error-wrapped", "cb-error-txdone", "cb-error-badconn", "cb-panic", "ctx-cancel", "deadline", "nested-deadline", "exec", "badconn", "begin", "commit-before", "commit-after", "rollback", "orm-statement-fault", "caller-gives-up-mid-batch"},
 		Assumptions: []string{"no cooperative scheduling is involved: this is a sequential fault-sequence simulation inside a synctest bubble"},
 	},
 	"C15": {
@@ -242,7 +242,7 @@ var specs = map[string]*propSpec{
 			{"TCP sockets / net/http server loop", "stub", "handler invoked directly with httptest request and recorder"},
 			{"clock, tickers", "stub", "testing/synctest fake clock moved only by the simulator"},
 		},
-		FaultKinds: []string{"clock-jump"},
+		FaultKinds: []string{"clock-jump", "client-hangs-up-mid-request"},
 	},
 	"C20": {
 		ID: "C20", Title: "the cache behaves as a bounded LRU map",
@@ -256,6 +256,6 @@ var specs = map[string]*propSpec{
 			{"clock, ticker", "stub", "testing/synctest fake clock, moved only by the simulator"},
 			{"HTTP middleware part of HTTPCache", "not-run", "outside the property"},
 		},
-		FaultKinds: []string{"clock-advance", "clock-jump"},
+		FaultKinds: []string{"clock-advance", "clock-jump", "eviction-callback-panics"},
 	},
 }
